@@ -1,4 +1,5 @@
 import RodbusModel.Lemmas.Lifecycle
+import RodbusModel.Spec.LifecycleObs
 /-
   C13 — The connection-state listener always observes a legal path: Disabled first; Connecting
   only while enabled; Connected only directly after Connecting; a wait state after every failed
@@ -18,6 +19,18 @@ import RodbusModel.Lemmas.Lifecycle
   the timeout limit of `s0` are arbitrary.  `Reachable s pos` means `(s, pos) = run s0 script` for
   some such `s0` and some `script : List (List Action)`.  Gate events (`.gate st`) are appended
   to the log by `stop` when the listener callback runs; `states log` extracts them.
+
+  Since the audit of the model three things are part of it that were missing before:
+  (1) actions after the end of the task (`stop` at `Pos.done` applies `applyDone`; `runStops` no
+  longer stops at `Pos.done`): `done_is_final`, `after_shutdown_handles_report_shutdown`, and
+  `C13.nothing_after_shutdown` in Props/C13Conn.lean; (2) the connection object (`S.conn`,
+  `Ev.closed`): Props/C13Conn.lean; (3) the `select!` race between the peer's EOF / garbage and
+  the command queue in `ClientLoop::poll`, resolved by the scheduler coins `S.coins`, which
+  `Initial` leaves arbitrary — every theorem over runs holds for every resolution (§6b),
+  `lost_session_outcomes` / `wait_after_lost_connection` list the outcomes — and peers that go
+  away in the middle of a session (`Behaviour.serveN`): `wait_after_lost_connection_in_flight`,
+  `wait_after_lost_connection_mid_session`, `wait_after_lost_connection_served`.
+  C14 for all scripts: `C14Life.announced_delays_conform` (Props/C14Life.lean).
 
   The user alphabet `Action` is {enable, disable, shutdown, dropAll, request id, setDecode lvl};
   every theorem that quantifies over scripts (`legal_path`, `no_attempt_while_disabled`,
@@ -160,11 +173,12 @@ theorem wait_after_failed_attempt_announced (s : S) (hq : s.queue = []) (hh : s.
     states (stop r1.1 r1.2 acts).1.log =
       states s.log ++ [.connecting, .waitFail (Retry.afterFailedConnect s.retry).1] := by
   intro r1
-  have : r1 = _ := stop_connect_refused s hq hh hc
-  rw [this]
+  have h1 : r1 = stop s.report (.gate .connecting .connect) [] := stop_gate_report s _ _ []
+  rw [h1, stop_connect_refused s.report (by simpa using hq) (by simpa using hh) (by simpa using hc)
+    (report_unreported s)]
   simp only [stop]
   rw [advance_states, (foldl_applyAction_frame acts _).1]
-  simp [states]
+  simp
 
 theorem wait_after_refused_announced (s : S) (hq : s.queue = []) (hh : s.handles = true)
     (hc : s.cur = .refuse) (acts : List Action) :
@@ -234,21 +248,168 @@ theorem failed_handshake_outcomes (fuel : Nat) (ph : Phase) (s : S)
     (advance fuel ph s).2 = .gate .shutdown .finished :=
   failed_attempt_outcomes fuel ph s hph (by rw [hc]; rfl) hf
 
+/-- every session in which the peer is gone (it has closed its side or sent garbage: the socket
+    branch of `ClientLoop::poll` is ready) ends, whatever is queued and however `select!` resolves
+    (the coins of `s` are arbitrary): the connection is closed and the task blocks at
+    `WaitAfterDisconnect(after_disconnect())`, or — only if a `Disable` resp. a `Shutdown` / the
+    loss of every handle wins the race — at `Disabled` resp. `Shutdown`.  The retry strategy is not
+    touched. -/
+theorem lost_session_outcomes (b : Behaviour) (hbf : b.fails = false) (fuel : Nat) (ph : Phase)
+    (s : S) (hph : ph = .session b ∨ ph = .afterDisable) (hg : b.gone s.served = true)
+    (hc : ph = .afterDisable → s.conn = false) (hf : s.queue.length + 1 ≤ fuel) :
+    ((advance fuel ph s).2 = .gate (.waitDisc (Retry.afterDisconnect s.retry)) .failFor ∨
+     (advance fuel ph s).2 = .gate .disabled .waitEnabled ∨
+     (advance fuel ph s).2 = .gate .shutdown .finished) ∧
+    (advance fuel ph s).1.conn = false ∧ (advance fuel ph s).1.retry = s.retry := by
+  have aux : ∀ (fuel : Nat) (ph : Phase) (s' : S), (ph = .session b ∨ ph = .afterDisable) →
+      b.gone s'.served = true → (ph = .afterDisable → s'.conn = false) →
+      s'.queue.length + 1 ≤ fuel → s'.retry = s.retry →
+      ((advance fuel ph s').2 = .gate (.waitDisc (Retry.afterDisconnect s.retry)) .failFor ∨
+       (advance fuel ph s').2 = .gate .disabled .waitEnabled ∨
+       (advance fuel ph s').2 = .gate .shutdown .finished) ∧
+      (advance fuel ph s').1.conn = false ∧ (advance fuel ph s').1.retry = s.retry := by
+    intro fuel
+    induction fuel with
+    | zero => intro ph s' _ _ _ hf; omega
+    | succ fuel ih =>
+      intro ph s' hph hg hc hf hr
+      rw [advance_succ]
+      rcases hph with rfl | rfl
+      · cases hq : s'.queue with
+        | nil =>
+          by_cases hh : s'.handles = true <;> by_cases hcoin : s'.coinVal = true <;>
+            simp [step, hq, hh, hg, hbf, hcoin, Res.fin, hr]
+        | cons c q =>
+          have hlen : q.length + 1 ≤ fuel := by rw [hq] at hf; simp at hf; omega
+          by_cases hcoin : s'.coinVal = true
+          · simp [step, hq, hg, hbf, hcoin, Res.fin, hr]
+          · cases c <;> simp only [step, hq, hg, hbf, hcoin, Res.fin, Bool.false_eq_true, ↓reduceIte]
+            · exact ih (.session b) { s'.coinPop with queue := q } (Or.inl rfl) hg (by simp) hlen hr
+            · exact ih .afterDisable { s'.coinPop.closeConn with queue := q, enabled := false }
+                (Or.inr rfl) hg (fun _ => rfl) hlen hr
+            · simp [hr]
+            · simp [hr]
+            · exact ih (.session b) { s'.coinPop with queue := q, decode := _ } (Or.inl rfl) hg
+                (by simp) hlen hr
+      · simp [step, Res.fin, hc rfl, hr]
+  exact aux fuel ph s hph hg hc hf rfl
+
+/-- … and it ends at `WaitAfterDisconnect` if the socket wins the first race, or nothing races it
+    (nothing queued and a live handle) -/
+theorem lost_session_socket_first (b : Behaviour) (hbf : b.fails = false) (s : S)
+    (hg : b.gone s.served = true)
+    (h : s.coinVal = true ∨ (s.queue = [] ∧ s.handles = true)) (fuel : Nat) :
+    (advance (fuel + 1) (.session b) s).2 =
+      .gate (.waitDisc (Retry.afterDisconnect s.retry)) .failFor := by
+  rw [advance_succ]
+  rcases h with hcoin | ⟨hq, hh⟩
+  · cases hq : s.queue with
+    | nil => by_cases hh : s.handles = true <;> simp [step, hq, hh, hbf, hg, hcoin, Res.fin]
+    | cons c q => simp [step, hq, hbf, hg, hcoin, Res.fin]
+  · simp [step, hq, hh, hbf, hg, Res.fin]
+
 /-- **wait_after_failure (lost connection)**: with a peer that closes the connection or sends
-    garbage, the state announced next after `Connected` is `WaitAfterDisconnect` with the
-    strategy's `after_disconnect` delay — whatever the user does at the `Connected` gate
-    (the commands stay queued).  The strategy has been reset at the start of the session. -/
+    garbage, the session that starts at the `Connected` gate ends at once, whatever the user does
+    at the gate:
+    * the retry strategy has been reset at the start of the session (and is not touched again);
+    * the connection is closed;
+    * the state announced next is `WaitAfterDisconnect` with the strategy's `after_disconnect`
+      delay — or, only if a command queued at the gate wins the `select!` race against the peer's
+      EOF / garbage in `ClientLoop::poll`, `Disabled` (a `Disable` did) or `Shutdown` (a `Shutdown`
+      or the loss of every handle did);
+    * if the socket wins the first race (`coinVal`), or nothing races it (nothing queued, a live
+      handle), it IS `WaitAfterDisconnect`: the commands stay queued and fail fast afterwards.
+    (Before the race was modelled this theorem claimed `WaitAfterDisconnect` unconditionally.) -/
 theorem wait_after_lost_connection (b : Behaviour) (hb : b = .close ∨ b = .garbage) (s : S)
     (acts : List Action) :
-    (stop s (.gate .connected (.sessionStart b)) acts).2 =
-      .gate (.waitDisc (Retry.afterDisconnect s.retry)) .failFor ∧
-    (stop s (.gate .connected (.sessionStart b)) acts).1.retry = Retry.reset s.retry := by
-  have hf := foldl_applyAction_frame acts (s.emit (.gate .connected))
+    (stop s (.gate .connected (.sessionStart b)) acts).1.retry = Retry.reset s.retry ∧
+    (stop s (.gate .connected (.sessionStart b)) acts).1.conn = false ∧
+    ((stop s (.gate .connected (.sessionStart b)) acts).2 =
+        .gate (.waitDisc (Retry.afterDisconnect s.retry)) .failFor ∨
+     (stop s (.gate .connected (.sessionStart b)) acts).2 = .gate .disabled .waitEnabled ∨
+     (stop s (.gate .connected (.sessionStart b)) acts).2 = .gate .shutdown .finished) ∧
+    ((s.coinVal = true ∨ (acts = [] ∧ s.queue = [] ∧ s.handles = true)) →
+      (stop s (.gate .connected (.sessionStart b)) acts).2 =
+        .gate (.waitDisc (Retry.afterDisconnect s.retry)) .failFor) := by
+  have hf := foldl_applyAction_frame acts (s.report.emit (.gate .connected))
+  have hbf : b.fails = false := by rcases hb with rfl | rfl <;> rfl
+  have hg : ∀ n, b.gone n = true := by rcases hb with rfl | rfl <;> intro n <;> rfl
   simp only [stop, fuelFor_succ]
-  generalize acts.foldl applyAction (s.emit (.gate .connected)) = s2 at hf
-  have hr : s2.retry = s.retry := hf.2.2.2.1
-  rcases hb with rfl | rfl <;>
-    simp [advance_succ, step, Res.fin, hr, Retry.afterDisconnect, Retry.reset]
+  generalize hs2 : acts.foldl applyAction (s.report.emit (.gate .connected)) = s2 at hf
+  have hr : s2.retry = s.retry := by rw [hf.2.2.2.1]; simp
+  have hcoins : s2.coins = s.coins := by rw [hf.2.2.2.2.2.2.2.2.2.2.2.1]; simp
+  rw [advance_succ]
+  simp only [step, Res.fin]
+  have hout := lost_session_outcomes b hbf (2 * s2.queue.length + 7) (.session b)
+    { s2 with retry := Retry.reset s2.retry, tcount := 0, served := 0 } (Or.inl rfl) (hg _)
+    (by simp) (by simp only []; omega)
+  have hsock := lost_session_socket_first b hbf
+    { s2 with retry := Retry.reset s2.retry, tcount := 0, served := 0 } (hg _)
+  simp only [Retry.afterDisconnect, Retry.reset] at hout hsock ⊢
+  refine ⟨by rw [hout.2.2, hr], hout.2.1, by simpa [hr] using hout.1, ?_⟩
+  intro hcase
+  have := hsock (by
+    rcases hcase with hcoin | ⟨rfl, hq, hh⟩
+    · left; simpa [S.coinVal, hcoins] using hcoin
+    · right
+      simp only [List.foldl_nil] at hs2
+      subst hs2
+      exact ⟨by simpa using hq, by simpa using hh⟩) (2 * s2.queue.length + 6)
+  simpa [hr] using this
+
+/-- a peer that serves `k` requests: while fewer than `k` have been answered on this connection a
+    request is served like by `serve` -/
+theorem serveN_serves (k : Nat) (w : Bool) (s : S) (id : Nat) (rest : List Cmd)
+    (hq : s.queue = .request id :: rest) (hk : s.served < k) (fuel : Nat) :
+    advance (fuel + 1) (.session (.serveN k w)) s =
+      advance fuel (.session (.serveN k w))
+        ({ s with queue := rest, tcount := 0, served := s.served + 1 }.emit (.done id "ok.4660")) := by
+  have hnk : ¬ k ≤ s.served := Nat.not_le.2 hk
+  cases w <;> simp [advance_succ, step, hq, hnk, Res.fin, Behaviour.gone, Behaviour.dropsNext]
+
+/-- **wait_after_failure (connection lost with a request in flight)**: the peer has answered its
+    `k` requests and closes when the next one arrives (`serveN k true`).  That request — at the
+    head of the queue — is written, the peer goes away, the request fails with the transport
+    error (`io.eof`), the session ends: the connection is dropped and the task blocks at
+    `WaitAfterDisconnect(after_disconnect())`; the commands behind it stay queued. -/
+theorem wait_after_lost_connection_in_flight (k : Nat) (s : S) (id : Nat) (rest : List Cmd)
+    (hq : s.queue = .request id :: rest) (hk : k ≤ s.served) (fuel : Nat) :
+    advance (fuel + 1) (.session (.serveN k true)) s =
+      ({ s with queue := rest, log := s.log ++ [.done id "io.eof"], conn := false,
+                unreported := true },
+        .gate (.waitDisc (Retry.afterDisconnect s.retry)) .failFor) := by
+  simp [advance_succ, step, hq, hk, Res.fin, S.emit, S.closeConn, Behaviour.gone,
+    Behaviour.dropsNext]
+
+theorem noconnEvents_requests (l : List Nat) :
+    noconnEvents (l.map Cmd.request) = l.map (fun id => Ev.done id "noconn") := by
+  induction l with
+  | nil => rfl
+  | cons i l ih => simp [ih]
+
+/-- **wait_after_failure (connection lost after the `k`-th reply)**: a peer that closes right
+    after its `k`-th reply (`serveN k false`) is gone from then on: the session ends like one with
+    a peer that closed at once (`lost_session_outcomes`, `lost_session_socket_first`) —
+    `WaitAfterDisconnect` with the minimum delay if the socket wins or nothing races it (the
+    task was idle: nothing queued, a live handle), whatever is queued failing fast afterwards. -/
+theorem wait_after_lost_connection_served (k : Nat) (s : S) (hk : k ≤ s.served) (fuel : Nat)
+    (hf : s.queue.length + 1 ≤ fuel) :
+    ((advance fuel (.session (.serveN k false)) s).2 =
+        .gate (.waitDisc (Retry.afterDisconnect s.retry)) .failFor ∨
+     (advance fuel (.session (.serveN k false)) s).2 = .gate .disabled .waitEnabled ∨
+     (advance fuel (.session (.serveN k false)) s).2 = .gate .shutdown .finished) ∧
+    (advance fuel (.session (.serveN k false)) s).1.conn = false ∧
+    (advance fuel (.session (.serveN k false)) s).1.retry = s.retry ∧
+    ((s.coinVal = true ∨ (s.queue = [] ∧ s.handles = true)) →
+      (advance fuel (.session (.serveN k false)) s).2 =
+        .gate (.waitDisc (Retry.afterDisconnect s.retry)) .failFor) := by
+  have hg : (Behaviour.serveN k false).gone s.served = true := by simp [hk]
+  have h1 := lost_session_outcomes (.serveN k false) rfl fuel (.session (.serveN k false)) s
+    (Or.inl rfl) hg (by simp) hf
+  refine ⟨h1.1, h1.2.1, h1.2.2, ?_⟩
+  intro hcase
+  obtain ⟨f, rfl⟩ : ∃ f, fuel = f + 1 := ⟨fuel - 1, by omega⟩
+  exact lost_session_socket_first (.serveN k false) rfl s hg hcase f
 
 /-- **wait_after_failure (silent peer, limit `n > 0`)**: exactly the `n`-th consecutive
     timed-out request ends the session with `WaitAfterDisconnect`; the commands behind it stay
@@ -257,7 +418,8 @@ theorem silent_session_ends_after_maxto (n : Nat) (hn : 0 < n) (ids : List Nat)
     (hlen : ids.length = n) (rest : List Cmd) (s : S) (hm : s.maxto = n) (ht : s.tcount = 0)
     (hq : s.queue = ids.map Cmd.request ++ rest) (fuel : Nat) (hf : n ≤ fuel) :
     advance fuel (.session .silent) s =
-      ({ s with queue := rest, tcount := n, log := s.log ++ timeoutEvents ids },
+      ({ s with queue := rest, tcount := n, log := s.log ++ timeoutEvents ids,
+                conn := false, unreported := true },
         .gate (.waitDisc (Retry.afterDisconnect s.retry)) .failFor) := by
   obtain ⟨init, last, rfl⟩ : ∃ init last, ids = init ++ [last] := by
     rcases List.eq_nil_or_concat ids with rfl | ⟨i, l, rfl⟩
@@ -284,12 +446,14 @@ theorem silent_session_survives (ids : List Nat) (s : S) (hlt : s.tcount + ids.l
 /-- **disable_leads_to_disabled**: a `Disable` command at the head of the queue, processed while
     connecting, connected (peer serving or silent) or waiting to reconnect, clears the enabled
     flag and takes the task — with no event in between, the log is unchanged — to the
-    announcement of `Disabled`; leaving the session phase drops the connection. -/
+    announcement of `Disabled`; leaving the session phase drops the connection (`closeConn`: the
+    connection object is gone, the peer sees the close). -/
 theorem disable_leads_to_disabled (ph : Phase)
     (hph : ph = .connect ∨ ph = .failFor ∨ ph = .session .serve ∨ ph = .session .silent)
     (s : S) (q : List Cmd) (hq : s.queue = .disable :: q) (fuel : Nat) :
     advance (fuel + 2) ph s =
-      ({ s with queue := q, enabled := false }, .gate .disabled .waitEnabled) := by
+      ({ (if ph = .connect ∨ ph = .failFor then s else s.closeConn) with
+          queue := q, enabled := false }, .gate .disabled .waitEnabled) := by
   rcases hph with rfl | rfl | rfl | rfl <;>
     simp [advance_succ, step, hq, Res.fin]
 
@@ -312,7 +476,8 @@ theorem disable_after_requests (ph : Phase) (hph : ph = .connect ∨ ph = .failF
         .gate .disabled .waitEnabled) := by
   obtain ⟨k, rfl⟩ : ∃ k, fuel = pre.length + (k + 2) := ⟨fuel - pre.length - 2, by omega⟩
   rw [advance_benign ph hph pre (.disable :: q) s (k + 2) hpre hq]
-  exact disable_leads_to_disabled ph (by rcases hph with rfl | rfl <;> simp) _ q rfl k
+  rw [disable_leads_to_disabled ph (by rcases hph with rfl | rfl <;> simp) _ q rfl k]
+  rcases hph with rfl | rfl <;> simp
 
 /-- **Disabled after a disable, which also closes an open connection**, at the level of stops:
     the task idles in a session with a serving peer, the user disables; the task leaves the
@@ -321,15 +486,17 @@ theorem disable_after_requests (ph : Phase) (hph : ph = .connect ∨ ph = .failF
 theorem disable_closes_connection (s : S) (hq : s.queue = []) (hh : s.handles = true)
     (acts : List Action) :
     stop s (.idle (.session .serve)) [.disable] =
-      ({ s with log := s.log ++ [.idle, .act .disable], enabled := false },
+      ({ s with log := s.log ++ [.idle, .act .disable], enabled := false,
+                conn := false, unreported := true },
         .gate .disabled .waitEnabled) ∧
-    states (stop { s with log := s.log ++ [.idle, .act .disable], enabled := false }
+    states (stop { s with log := s.log ++ [.idle, .act .disable], enabled := false,
+                          conn := false, unreported := true }
       (.gate .disabled .waitEnabled) acts).1.log = states s.log ++ [.disabled] := by
   constructor
-  · simp [stop, applyAction, hh, hq, fuelFor, advance_succ, step, Res.fin, S.emit]
+  · simp [stop, applyAction, hh, hq, fuelFor, advance_succ, step, Res.fin, S.emit, S.closeConn]
   · simp only [stop]
     rw [advance_states, (foldl_applyAction_frame acts _).1]
-    simp [states]
+    simp [show states [Ev.idle, Ev.act Action.disable] = [] from rfl]
 
 /-! ## 5. requests fail fast while not connected -/
 
@@ -500,12 +667,133 @@ theorem finished_flushes (s : S) (fuel : Nat) :
     (∀ id, completed id (flush s).log = completed id s.log + queued id s.queue) :=
   ⟨by simp [advance_succ, step, Res.fin], flush_log s, fun id => flush_completed id s⟩
 
-/-- **Shutdown is final**: once the task is done nothing happens any more, whatever the handles
-    try (in the code: every `Channel` method then returns `Shutdown` because the receiver is
-    gone; the model has no further events). -/
+/-- what the handles of the ended task log for a list of actions (`h`: a handle is left):
+    a request is submitted and completed with `shutdown` at once, every other call is refused
+    with `shutdown`, dropping the handles ends it -/
+def afterEvents : Bool → List Action → List Ev
+  | false, _ => []
+  | true, [] => []
+  | true, .request id :: r => .act (.request id) :: .done id "shutdown" :: afterEvents true r
+  | true, .dropAll :: _ => [.act .dropAll]
+  | true, .enable :: r => .refused .enable :: afterEvents true r
+  | true, .disable :: r => .refused .disable :: afterEvents true r
+  | true, .shutdown :: r => .refused .shutdown :: afterEvents true r
+  | true, .setDecode l :: r => .refused (.setDecode l) :: afterEvents true r
+
+theorem foldl_applyDone_eq (acts : List Action) (s : S) :
+    acts.foldl applyDone s =
+      { s with log := s.log ++ afterEvents s.handles acts,
+               handles := s.handles && !acts.contains .dropAll } := by
+  induction acts generalizing s with
+  | nil => cases hh : s.handles <;> simp [afterEvents, hh] <;> (cases s; simp_all)
+  | cons a acts ih =>
+    simp only [List.foldl_cons]
+    rw [ih]
+    cases hh : s.handles
+    · simp [applyDone, hh, afterEvents]
+    · cases a <;> simp [applyDone, hh, afterEvents, S.emit, List.append_assoc]
+
+theorem runStops_done_eq (script : List (List Action)) (s : S) :
+    runStops s .done script = (script.flatten.foldl applyDone s, .done) := by
+  induction script generalizing s with
+  | nil => rfl
+  | cons acts rest ih =>
+    rw [runStops_cons]
+    simp only [stop, List.flatten_cons, List.foldl_append]
+    exact ih _
+
+/-- **Shutdown is final** (this used to say `runStops s .done script = (s, .done)`, which was true
+    only because the model did not apply actions after the end of the task; it does now).  Once
+    the task has ended, whatever script the handles perform — any number of stops, any actions —
+    the task stays ended and the ONLY thing that happens is what `afterEvents` lists: every
+    request submitted (while a handle is left) is logged and completed with `shutdown` at once,
+    every other call (enable, disable, shutdown, set_decode_level) is refused with `shutdown`,
+    dropping the handles is logged.  Nothing else of the state changes: in particular the queue
+    stays empty (nothing is ever queued again) and nothing is announced. -/
 theorem done_is_final (s : S) (script : List (List Action)) :
-    runStops s .done script = (s, .done) :=
-  runStops_done s script
+    runStops s .done script =
+      ({ s with log := s.log ++ afterEvents s.handles script.flatten,
+                handles := s.handles && !script.flatten.contains .dropAll }, .done) := by
+  rw [runStops_done_eq, foldl_applyDone_eq]
+
+/-- what `afterEvents` consists of: no state announcement, no idle period, no connection event;
+    every completion is `shutdown` (`Spec.LifeObs.quiet`) -/
+theorem afterEvents_quiet (h : Bool) (acts : List Action) :
+    ∀ e ∈ afterEvents h acts, Spec.LifeObs.quiet e = true := by
+  induction acts with
+  | nil => cases h <;> simp [afterEvents]
+  | cons a acts ih =>
+    cases h
+    · simp [afterEvents]
+    · cases a <;> simp [afterEvents, Spec.LifeObs.quiet] <;> exact ih
+
+/-- … every completion in it answers a request submitted in it, exactly once: per request id,
+    completions = submissions -/
+theorem afterEvents_exactly_once (h : Bool) (acts : List Action) (id : Nat) :
+    completed id (afterEvents h acts) = submitted id (afterEvents h acts) := by
+  induction acts with
+  | nil => cases h <;> simp [afterEvents, completed, submitted]
+  | cons a acts ih =>
+    cases h
+    · simp [afterEvents, completed, submitted]
+    · cases a <;>
+        simp only [afterEvents, completed, submitted, isDone, List.countP_cons, List.count_cons,
+          List.countP_nil, List.count_nil] at ih ⊢ <;> simp_all <;> omega
+
+/-- … and while a handle is left every request of the script IS submitted (hence, by
+    `afterEvents_exactly_once` and `afterEvents_quiet`, completed with `shutdown` exactly once) -/
+theorem afterEvents_submitted (acts : List Action) (hx : Action.dropAll ∉ acts) (id : Nat) :
+    submitted id (afterEvents true acts) = acts.count (.request id) := by
+  induction acts with
+  | nil => simp [afterEvents, submitted]
+  | cons a acts ih =>
+    have hx' : Action.dropAll ∉ acts := fun h => hx (List.mem_cons_of_mem _ h)
+    have ih := ih hx'
+    cases a <;>
+      simp only [afterEvents, submitted, List.count_cons, List.count_nil] at ih ⊢ <;>
+      simp_all
+
+/-- **after `Shutdown` every handle reports shutdown**: from every position reachable by a run,
+    a shutdown (or the loss of every handle) followed by enough empty stops ends the task
+    (`shutdown_from_anywhere`); whatever the handles do afterwards (`script`), the task stays
+    ended, no state is announced any more (the announced states are those of the moment the task
+    ended, `Shutdown` last), and the log grows by exactly `afterEvents`: requests complete with
+    `shutdown`, exactly once each; every other call is refused with `shutdown`. -/
+theorem after_shutdown_handles_report_shutdown (s : S) (pos : Pos) (hr : Reachable s pos)
+    (a : Action) (ha : a = .shutdown ∨ a = .dropAll) (n : Nat) (hn : termBound s ≤ n)
+    (script : List (List Action)) :
+    let e := runStops s pos ([a] :: List.replicate n [])
+    let r := runStops s pos (([a] :: List.replicate n []) ++ script)
+    e.2 = .done ∧ r.2 = .done ∧
+    r.1.log = e.1.log ++ afterEvents e.1.handles script.flatten ∧
+    states r.1.log = states e.1.log ∧ (states r.1.log).getLast? = some .shutdown ∧
+    r.1.alive = false ∧ r.1.queue = [] ∧
+    (∀ id, submitted id r.1.log = completed id r.1.log) := by
+  intro e r
+  have he := shutdown_from_anywhere s pos hr a ha n hn
+  have hr' : r = runStops e.1 e.2 script := runStops_append s pos _ script
+  have hdone : e.2 = .done := he.1
+  rw [hdone, done_is_final] at hr'
+  have hst : states r.1.log = states e.1.log := by
+    rw [hr']
+    simp only [states_append]
+    have : states (afterEvents e.1.handles script.flatten) = [] := by
+      have hq := afterEvents_quiet e.1.handles script.flatten
+      generalize afterEvents e.1.handles script.flatten = l at hq
+      induction l with
+      | nil => rfl
+      | cons x l ih =>
+        have hx := hq x (by simp)
+        have := ih (fun e he => hq e (List.mem_cons_of_mem _ he))
+        cases x <;> simp_all [states, Spec.LifeObs.quiet]
+    rw [this, List.append_nil]
+  refine ⟨hdone, by rw [hr'], by rw [hr'], hst, by rw [hst]; exact he.2.2.2.2.1,
+    by rw [hr']; exact he.2.1, by rw [hr']; exact he.2.2.1, ?_⟩
+  intro id
+  have h1 : submitted id e.1.log = completed id e.1.log := he.2.2.2.2.2.2 id
+  rw [hr']
+  simp only [submitted_append, completed_append, afterEvents_exactly_once]
+  omega
 
 /-- **conservation**: at every position of every run, for every request id:
     submitted (through a live handle) = completed + still queued. -/
@@ -526,6 +814,53 @@ theorem exactly_once (s0 : S) (h0 : Initial s0) (script : List (List Action)) (i
     simp [start, h4, submitted]
   unfold run at h1 ⊢
   omega
+
+/-! ## 6b. every resolution of the `select!` races
+
+  `Initial s0` says nothing about `s0.coins`: every theorem above that quantifies over initial
+  states (`legal_path`, `conservation`, `exactly_once`, `connecting_only_enabled_run`, …) or over
+  reachable positions (`shutdown_from_anywhere`, `no_attempt_while_disabled`, …) holds for EVERY
+  list of scheduler coins, i.e. for every way the races between the peer's EOF / garbage and the
+  command queue can resolve.  Spelled out: -/
+
+theorem initial_coins (s0 : S) (h0 : Initial s0) (coins : List Bool) :
+    Initial { s0 with coins := coins } := h0
+
+theorem legal_path_every_resolution (s0 : S) (h0 : Initial s0) (coins : List Bool)
+    (script : List (List Action)) :
+    legalLog (run { s0 with coins := coins } script).1.log = true :=
+  legal_path _ (initial_coins s0 h0 coins) script
+
+theorem conservation_every_resolution (s0 : S) (h0 : Initial s0) (coins : List Bool)
+    (script : List (List Action)) (id : Nat) :
+    submitted id (run { s0 with coins := coins } script).1.log =
+      completed id (run { s0 with coins := coins } script).1.log +
+        queued id (run { s0 with coins := coins } script).1.queue :=
+  conservation _ (initial_coins s0 h0 coins) script id
+
+theorem exactly_once_every_resolution (s0 : S) (h0 : Initial s0) (coins : List Bool)
+    (script : List (List Action)) (id : Nat) (hid : script.flatten.count (.request id) ≤ 1) :
+    completed id (run { s0 with coins := coins } script).1.log +
+      queued id (run { s0 with coins := coins } script).1.queue ≤ 1 :=
+  exactly_once _ (initial_coins s0 h0 coins) script id hid
+
+theorem shutdown_from_anywhere_every_resolution (s0 : S) (h0 : Initial s0) (coins : List Bool)
+    (script : List (List Action)) (a : Action) (ha : a = .shutdown ∨ a = .dropAll) (n : Nat)
+    (hn : termBound (run { s0 with coins := coins } script).1 ≤ n) :
+    (runStops (run { s0 with coins := coins } script).1 (run { s0 with coins := coins } script).2
+      ([a] :: List.replicate n [])).2 = .done :=
+  (shutdown_from_anywhere _ _ ⟨_, script, initial_coins s0 h0 coins, rfl⟩ a ha n hn).1
+
+/-- the race is real in the model: the same script, two coin lists, two different paths (harness
+    case `life r30.120 m0 t100 close/serve E,-,D,-,-`): the peer's EOF first —
+    `WaitAfterDisconnect`, then the queued `Disable` —, or the `Disable` first -/
+example :
+    states (run { retry := Retry.create 30 120, behaviours := [.close, .serve], coins := [true] }
+      [[.enable], [], [.disable], [], []]).1.log =
+      [.disabled, .connecting, .connected, .waitDisc 30, .disabled] ∧
+    states (run { retry := Retry.create 30 120, behaviours := [.close, .serve], coins := [false] }
+      [[.enable], [], [.disable], [], []]).1.log =
+      [.disabled, .connecting, .connected, .disabled] := by decide
 
 /-! ## 7. C14 at the task level -/
 
@@ -549,7 +884,7 @@ theorem announced_delays_follow_strategy_failures (mn mx : Nat) (hmx : mx ≤ Re
         [.connecting, .connected] ∧
     (run s0 ([.enable] :: List.replicate (2 * fs.length + 2) [])).1.retry =
       Retry.create mn mx := by
-  obtain ⟨he, hq, hh, hl, _, _⟩ := h0
+  obtain ⟨he, hq, hh, hl, _, _, _, hu⟩ := h0
   generalize hk : fs.length = k
   have h2 : 2 * k + 2 = (2 * k + 1) + 1 := by omega
   have hsplit : List.replicate (2 * k + 2) ([] : List Action) =
@@ -561,10 +896,11 @@ theorem announced_delays_follow_strategy_failures (mn mx : Nat) (hmx : mx ≤ Re
   have h1 : stop (start s0).1 (start s0).2 [.enable] =
       advance 9 .waitEnabled
         { s0 with log := [.gate .disabled, .act .enable], enabled := true } := by
-    simp [start, stop, applyAction, hh, hq, hl, fuelFor, advance_succ, step, he, Res.fin, S.emit]
+    simp [start, stop, applyAction, hh, hq, hl, fuelFor, advance_succ, step, he, Res.fin, S.emit,
+      report_of_false s0 hu]
   rw [h1]
   have hloop := reconnect_loop_fails b hb fs
-    { s0 with log := [.gate .disabled, .act .enable], enabled := true } 8 rfl hq hh hfs hbs
+    { s0 with log := [.gate .disabled, .act .enable], enabled := true } 8 rfl hq hh hu hfs hbs
   rw [hk] at hloop
   simp only [Nat.reduceAdd] at hloop
   obtain ⟨hp, hs, hret⟩ := hloop
@@ -580,11 +916,11 @@ theorem announced_delays_follow_strategy_failures (mn mx : Nat) (hmx : mx ≤ Re
   simp only [runStops, stop, List.foldl_nil, fuelFor_succ]
   constructor
   · rw [advance_states]
-    simp only [emit_log, states_append, states_gate, hs, hr]
+    simp only [emit_log, states_append, states_gate, report_states, hs, hr]
     rw [C14.kth_delay_created mn mx hmx k, failEvents, List.flatMap_map]
     simp [states]
   · rw [advance_sessionStart_retry]
-    simp only [emit_retry, hret, hr]
+    simp only [emit_retry, report_retry, hret, hr]
     have := retryAfter_min_max k (Retry.create mn mx)
     simp only [Retry.reset, this.1, this.2]
     rfl
@@ -630,11 +966,11 @@ theorem announced_delays_follow_strategy_tls (mn mx : Nat) (hmx : mx ≤ Retry.D
     session, the strategy is in its reset state when the task blocks next. -/
 theorem retry_reset_on_connect (s : S) (b : Behaviour) (acts : List Action) :
     (stop s (.gate .connected (.sessionStart b)) acts).1.retry = Retry.reset s.retry := by
-  have hf := foldl_applyAction_frame acts (s.emit (.gate .connected))
+  have hf := foldl_applyAction_frame acts (s.report.emit (.gate .connected))
   simp only [stop, fuelFor_succ]
-  generalize acts.foldl applyAction (s.emit (.gate .connected)) = s2 at hf
+  generalize acts.foldl applyAction (s.report.emit (.gate .connected)) = s2 at hf
   rw [advance_sessionStart_retry, hf.2.2.2.1]
-  rfl
+  simp
 
 /-- **restart_after_success**: from a reset strategy the next `j` consecutive failed connects wait
     `min·2^i` capped at `max`, `i = 0..j-1`, again — whatever the state was before the reset. -/
@@ -713,6 +1049,68 @@ theorem wait_is_waited (s : S) (he : s.enabled = true) (fuel : Nat)
       | true => exact Or.inl ((hben hb).1 hh).1
       | false => exact Or.inr (Or.inr ((hben hb).2 hh))
     · exact Or.inr (hsplit pre c rest hq hpre hcc)
+
+/-- at the callback of a wait state, with the peer's observation of the close pending: `closed`
+    is logged in front of the state, and as soon as the callback returns the queued requests fail
+    fast (`noconn`, in order) and `Connecting` is announced -/
+theorem queued_fail_fast_at_wait_gate (s1 : S) (st : St) (ids : List Nat)
+    (hq : s1.queue = ids.map Cmd.request) (he : s1.enabled = true) (hh : s1.handles = true)
+    (hu : s1.unreported = true) :
+    (stop s1 (.gate st .failFor) []).2 = .gate .connecting .connect ∧
+    (stop s1 (.gate st .failFor) []).1.log =
+      s1.log ++ [.closed, .gate st] ++ ids.map (fun i => Ev.done i "noconn") ∧
+    (stop s1 (.gate st .failFor) []).1.queue = [] := by
+  simp only [stop, List.foldl_nil]
+  have hlog : (s1.report.emit (.gate st)).log = s1.log ++ [.closed, .gate st] := by
+    simp [S.report, S.emit, hu]
+  have hw := (wait_is_waited (s1.report.emit (.gate st)) (by simpa using he)
+    (fuelFor (s1.report.emit (.gate st))) (by unfold fuelFor; omega)).1
+    (by
+      simp only [emit_queue, report_queue, hq]
+      intro c hc; obtain ⟨i, _, rfl⟩ := List.mem_map.1 hc; rfl)
+    (by simpa using hh)
+  refine ⟨hw.1, ?_, hw.2.1⟩
+  rw [hw.2.2, hlog]
+  simp [hq, noconnEvents_requests]
+
+/-- **wait_after_failure (connection lost in the middle of a session, requests queued)**: the
+    channel is enabled, a handle is alive, the peer has answered its `k` requests and the queue
+    holds requests `id :: ids` only.  Then:
+    * `id` is in flight when the connection is lost: it fails with the transport error `io.eof`;
+    * the connection is dropped and `WaitAfterDisconnect` is announced with the MINIMUM delay
+      (`after_disconnect()`), the requests `ids` still queued;
+    * at that callback the peer's observation `closed` is logged in front of the state, and as
+      soon as the callback returns the queued requests fail fast — `noconn`, in order, none of
+      them waits for the next connection — and the task announces `Connecting`. -/
+theorem wait_after_lost_connection_mid_session (k : Nat) (s : S) (id : Nat) (ids : List Nat)
+    (hq : s.queue = .request id :: ids.map Cmd.request) (hk : k ≤ s.served)
+    (he : s.enabled = true) (hh : s.handles = true) (fuel : Nat) :
+    (advance (fuel + 1) (.session (.serveN k true)) s).2 =
+      .gate (.waitDisc s.retry.min) .failFor ∧
+    (advance (fuel + 1) (.session (.serveN k true)) s).1.log = s.log ++ [.done id "io.eof"] ∧
+    (advance (fuel + 1) (.session (.serveN k true)) s).1.conn = false ∧
+    (advance (fuel + 1) (.session (.serveN k true)) s).1.queue = ids.map Cmd.request ∧
+    (stop (advance (fuel + 1) (.session (.serveN k true)) s).1
+        (.gate (.waitDisc s.retry.min) .failFor) []).2 = .gate .connecting .connect ∧
+    (stop (advance (fuel + 1) (.session (.serveN k true)) s).1
+        (.gate (.waitDisc s.retry.min) .failFor) []).1.log =
+      s.log ++ [.done id "io.eof", .closed, .gate (.waitDisc s.retry.min)] ++
+        ids.map (fun i => Ev.done i "noconn") ∧
+    (stop (advance (fuel + 1) (.session (.serveN k true)) s).1
+        (.gate (.waitDisc s.retry.min) .failFor) []).1.queue = [] := by
+  have hr := wait_after_lost_connection_in_flight k s id _ hq hk fuel
+  generalize advance (fuel + 1) (.session (.serveN k true)) s = r at hr ⊢
+  have h2 : r.2 = .gate (.waitDisc s.retry.min) .failFor := by rw [hr]; rfl
+  have hlogr : r.1.log = s.log ++ [.done id "io.eof"] := by rw [hr]
+  have hq' : r.1.queue = ids.map Cmd.request := by rw [hr]
+  have hc : r.1.conn = false := by rw [hr]
+  have he' : r.1.enabled = true := by rw [hr]; exact he
+  have hh' : r.1.handles = true := by rw [hr]; exact hh
+  have hu' : r.1.unreported = true := by rw [hr]
+  have h := queued_fail_fast_at_wait_gate r.1 (.waitDisc s.retry.min) ids hq' he' hh' hu'
+  refine ⟨h2, hlogr, hc, hq', h.1, ?_, h.2.2⟩
+  rw [h.2.1, hlogr]
+  simp
 
 /-! ## 8. `set_decode_level` changes the decode level and nothing else -/
 
@@ -817,27 +1215,29 @@ theorem decode_level_never_dials (s : S) (pos : Pos)
     have := key (s.emit .idle) he hh rfl rfl
     simpa using this
   · simp only [stop]
-    have := key (s.emit (.gate .disabled)) he hh rfl rfl
+    have := key (s.report.emit (.gate .disabled)) (by simpa using he) (by simpa using hh)
+      (by simp) (by simp)
     simpa using this
 
 /-! ## non-vacuity and the two reference scenarios -/
 
 /-- an `Initial` state exists, for every strategy / behaviours / limit -/
 example (r : Retry.Doubling) (bs : List Behaviour) (m : Nat) :
-    Initial { retry := r, behaviours := bs, maxto := m } := ⟨rfl, rfl, rfl, rfl, rfl, rfl⟩
+    Initial { retry := r, behaviours := bs, maxto := m } :=
+  ⟨rfl, rfl, rfl, rfl, rfl, rfl, rfl, rfl⟩
 
 /-- the fuel side conditions are satisfiable: `stop` always supplies enough -/
 example (s : S) : s.queue.length + 2 ≤ fuelFor s ∧ fuelFor s ≥ 2 * s.queue.length + 8 := by
   unfold fuelFor; omega
 
 /-- scenario 1 (harness: `g:Disabled;a:E;g:Connecting;g:Connected;idle;a:R1;done:R1:ok.4660;idle;
-    a:D;g:Disabled;idle;a:E;g:Connecting;g:Connected`): enable, one served request, disable,
+    a:D;closed;g:Disabled;idle;a:E;g:Connecting;g:Connected`): enable, one served request, disable,
     enable again, against a serving peer; the driver appends two empty stops. -/
 example :
     (run { retry := Retry.create 30 120, behaviours := [.serve] }
       ([[.enable], [], [], [.request 1], [.disable], [], [.enable]] ++ [[], []])).1.log =
     [.gate .disabled, .act .enable, .gate .connecting, .gate .connected, .idle,
-     .act (.request 1), .done 1 "ok.4660", .idle, .act .disable, .gate .disabled, .idle,
+     .act (.request 1), .done 1 "ok.4660", .idle, .act .disable, .closed, .gate .disabled, .idle,
      .act .enable, .gate .connecting, .gate .connected] := by decide
 
 /-- scenario 2 (harness: `g:Disabled;a:E;g:Connecting;g:WaitFail(30);g:Connecting;a:R1;
@@ -870,7 +1270,7 @@ example :
       [[.enable], [], [], [.request 1, .request 2, .request 3], []]).1.log =
     [.gate .disabled, .act .enable, .gate .connecting, .gate .connected, .idle,
      .act (.request 1), .act (.request 2), .act (.request 3), .done 1 "timeout", .done 2 "timeout",
-     .gate (.waitDisc 30), .done 3 "noconn"] := by decide
+     .closed, .gate (.waitDisc 30), .done 3 "noconn"] := by decide
 
 /-- `shutdown_from_anywhere` instantiated with a dropped handle in the middle of a session:
     the queued request is still served, then the task announces `Shutdown` and ends -/
@@ -882,7 +1282,7 @@ example :
     (run { retry := Retry.create 30 120, behaviours := [.serve] }
       [[.enable], [], [], [.request 1, .dropAll], []]).1.log =
       [.gate .disabled, .act .enable, .gate .connecting, .gate .connected, .idle,
-       .act (.request 1), .act .dropAll, .done 1 "ok.4660", .gate .shutdown] := by
+       .act (.request 1), .act .dropAll, .done 1 "ok.4660", .closed, .gate .shutdown] := by
   decide
 
 /-- `decode_level_never_dials` / `no_attempt_while_disabled` instantiated (harness:
